@@ -234,15 +234,24 @@ func runEvents(c *core.Ctx, sc *scratch, i int, ok *int) {
 		}
 	}
 	lev = append(lev, fillerEvents(r, nAfter)...)
-	logPath := filepath.Join(dir, "binary_bios_measurements")
 	logLen := len(encodeLog(lev))
-	must(os.WriteFile(logPath, encodeLog(lev), 0o644))
+	// the log is kept on a regular file, a named pipe (stat size 0, as the securityfs file has) or behind a symbolic link
+	medium := drawMedium(r)
+	pl, _ := placeLog(dir, "binary_bios_measurements", encodeLog(lev), medium)
+	medium = pl.medium
+	gen += "/log-on=" + medium.String()
 	g := &recGetter{}
 	var out []byte
-	c.Guard(i, entryDirect, gen, core.Budget{}, func() {
-		out, err = extract.Endorsement(&extract.Options{Getter: g, FirmwareManufacturer: extract.GCEFirmwareManufacturer, EventLogLocation: logPath,
-			UEFIVariableReader: exel.MakeEfiVarFSReader(efi)})
+	pl.serve(func() {
+		c.Guard(i, entryDirect, gen, core.Budget{}, func() {
+			out, err = extract.Endorsement(&extract.Options{Getter: g, FirmwareManufacturer: extract.GCEFirmwareManufacturer, EventLogLocation: pl.path,
+				UEFIVariableReader: exel.MakeEfiVarFSReader(efi)})
+		})
 	})
+	if pl.tainted {
+		c.Count("log-medium/pipe-not-served-whole(case-skipped)", 1)
+		return
+	}
 	if err != nil || !bytes.Equal(out, signed) || len(g.urls) != 0 {
 		c.Oracle(i, entryDirect, "emitted-events-do-not-lead-to-the-variable", gen, "err=%v len(out)=%d want %d urls=%v", err, len(out), len(signed), g.urls)
 	}
@@ -253,12 +262,18 @@ func runEvents(c *core.Ctx, sc *scratch, i int, ok *int) {
 	}
 	lev = append(fillerEvents(r, nBefore), logEvent{Type: evNoAction, Data: evs[uriIdx]})
 	lev = append(lev, fillerEvents(r, nAfter)...)
-	must(os.WriteFile(logPath, encodeLog(lev), 0o644))
+	pl, _ = placeLog(dir, "binary_bios_measurements", encodeLog(lev), medium)
 	g = &recGetter{}
-	c.Guard(i, entryDirect, gen, core.Budget{}, func() {
-		out, err = extract.Endorsement(&extract.Options{Getter: g, FirmwareManufacturer: extract.GCEFirmwareManufacturer, EventLogLocation: logPath,
-			UEFIVariableReader: exel.MakeEfiVarFSReader(efi)})
+	pl.serve(func() {
+		c.Guard(i, entryDirect, gen, core.Budget{}, func() {
+			out, err = extract.Endorsement(&extract.Options{Getter: g, FirmwareManufacturer: extract.GCEFirmwareManufacturer, EventLogLocation: pl.path,
+				UEFIVariableReader: exel.MakeEfiVarFSReader(efi)})
+		})
 	})
+	if pl.tainted {
+		c.Count("log-medium/pipe-not-served-whole(case-skipped)", 1)
+		return
+	}
 	if err != nil || len(g.urls) != 1 || g.urls[0] != wantURI || !bytes.Equal(out, netAnswer(wantURI)) {
 		c.Oracle(i, entryDirect, "emitted-uri-event-not-fetched-verbatim", gen, "err=%v urls=%v want [%s]", err, g.urls, wantURI)
 	}
@@ -267,7 +282,8 @@ func runEvents(c *core.Ctx, sc *scratch, i int, ok *int) {
 		c.Sample(map[string]any{"family": "events", "image_sha384": lowerHex(digest[:]), "uri_locator": wantURI, "variable_locator_hex": lowerHex(wantVar), "manifest_guid_wire": lowerHex(guids[0][:]), "events_file": base + ".evts.pb"})
 	}
 	c.Max("events/longest-log-bytes", int64(logLen))
-	c.Cell("events|size=%#x|order=%v|svn=%d|dir=%d|log>=%dKiB", size, order, svn, strings.Count(snapDir+imageName, "/"), min(logLen>>12, 16)<<2)
+	c.Count("log-medium/"+medium.String(), 1)
+	c.Cell("events|size=%#x|order=%v|svn=%d|dir=%d|log>=%dKiB|on=%s", size, order, svn, strings.Count(snapDir+imageName, "/"), min(logLen>>12, 16)<<2, medium)
 }
 
 func fileNames(m map[string][]byte) []string {
